@@ -317,4 +317,358 @@ theorem paintedLine_eq_governs (cfg : Cfg) (h : AsParsed cfg) (side : Side) (hom
         subst hy
         exact differs_fields cfg h side x.1 y.1
 
+/-! ### Part 5: which field governs a section (closed form) -/
+
+/-- The field `X-non-emph-style` is read into. -/
+def nonEmphField : Side → String
+  | .minus => "minus_non_emph_style"
+  | .plus => "plus_non_emph_style"
+
+/-- The rule for a section outside the trailing whitespace of an added line: a changed section shows the within-line
+(emph) style; an unchanged section shows the non-emph style when the line has a partner, the style of the line
+otherwise. -/
+def hunkRule (side : Side) (homolog e : Bool) : String :=
+  if e then emphField side else if homolog then nonEmphField side else lineField side
+
+/-- What the two calls pass (generated, `decide`): no whitespace-error style for removed lines, `whitespace_error_style`
+for added lines, and **always** the non-emph style of the side. -/
+theorem calls_args : ∀ c ∈ updateCalls,
+    (c.side = "Minus" → symOpt c.wsErr = some none ∧ symOpt c.nonEmph = some (some (nonEmphField .minus))) ∧
+    (c.side = "Plus" → symOpt c.wsErr = some (some "whitespace_error_style") ∧
+      symOpt c.nonEmph = some (some (nonEmphField .plus))) := by decide
+
+/-- The generated guards of `update_diff_style_sections`, as far as needed here (`decide`). -/
+theorem guard_facts :
+    (∀ e m, wsErrBranch false e m = false) ∧
+    (∀ h e, nonEmphBranch (shouldUpdateNonEmph true h) e = (h && !e)) ∧
+    wsErrInitial false = false ∧
+    (∀ w, (if wsErrCleared w false = true then false else w) = false) ∧
+    (∀ b, (if wsErrCleared false b = true then false else false) = false) ∧
+    sectionsReversed = true := by decide
+
+/-- `is_whitespace_error` after the reset test at a section (`blank` = the section is blank). -/
+def stepWs (w blank : Bool) : Bool := if wsErrCleared w blank then false else w
+
+theorem stepWs_nonblank (w : Bool) : stepWs w false = false := guard_facts.2.2.2.1 w
+theorem stepWs_false (b : Bool) : stepWs false b = false := guard_facts.2.2.2.2.1 b
+
+theorem updateLoop_cons {σ : Type} (o : Ops σ) (ws ne : Option σ) (should mixed w : Bool) (s : σ × Bool) (rest : List (σ × Bool)) :
+    updateLoop o ws ne should mixed w (s :: rest) =
+      match newStyle o ws ne should mixed (stepWs w s.2) s with
+      | .error e => .error e
+      | .ok st =>
+        match updateLoop o ws ne should mixed (stepWs w s.2) rest with
+        | .error e => .error e
+        | .ok out => .ok ((st, s.2) :: out) := rfl
+
+/-- `is_whitespace_error` after the sections of `l` have been visited. -/
+def wsEnd (w : Bool) : List (String × Bool) → Bool
+  | [] => w
+  | s :: rest => wsEnd (stepWs w s.2) rest
+
+theorem wsEnd_false (l : List (String × Bool)) : wsEnd false l = false := by
+  induction l with
+  | nil => rfl
+  | cons s rest ih => simp only [wsEnd]; rw [stepWs_false]; exact ih
+
+theorem wsEnd_nonblank (w : Bool) (l : List (String × Bool)) (h : ∃ t ∈ l, t.2 = false) : wsEnd w l = false := by
+  induction l generalizing w with
+  | nil => obtain ⟨t, ht, _⟩ := h; simp at ht
+  | cons s rest ih =>
+    simp only [wsEnd]
+    obtain ⟨t, ht, hb⟩ := h
+    rcases List.mem_cons.mp ht with ht | ht
+    · subst ht
+      rw [hb, stepWs_nonblank]
+      exact wsEnd_false rest
+    · exact ih _ ⟨t, ht, hb⟩
+
+theorem newStyle_noWs (ws : Option String) (n : String) (should mixed : Bool) (s : String × Bool) :
+    newStyle sOps ws (some n) should mixed false s = .ok (if nonEmphBranch should (isEmphField s.1) then n else s.1) := by
+  unfold newStyle
+  simp only [guard_facts.1, sOps, unwrap, Bool.and_false, Bool.false_eq_true, if_false]
+  split <;> rfl
+
+theorem updateLoop_length (ws ne : Option String) (should mixed w : Bool) (l out : List (String × Bool))
+    (h : updateLoop sOps ws ne should mixed w l = .ok out) : out.length = l.length := by
+  induction l generalizing w out with
+  | nil => simp only [updateLoop] at h; injection h with h; subst h; rfl
+  | cons s rest ih =>
+    rw [updateLoop_cons] at h
+    split at h
+    · cases h
+    · split at h
+      · cases h
+      · rename_i o ho
+        injection h with h
+        subst h
+        simp [ih _ o ho]
+
+/-- A section visited while `is_whitespace_error` is off gets the non-emph style iff the non-emph branch applies. -/
+theorem updateLoop_at (ws : Option String) (n : String) (should mixed w : Bool) (l₁ l₂ out : List (String × Bool))
+    (s : String × Bool) (h : updateLoop sOps ws (some n) should mixed w (l₁ ++ s :: l₂) = .ok out)
+    (hw : stepWs (wsEnd w l₁) s.2 = false) :
+    ∃ o₁ o₂, out = o₁ ++ (if nonEmphBranch should (isEmphField s.1) then n else s.1, s.2) :: o₂ ∧
+      o₁.length = l₁.length ∧ o₂.length = l₂.length := by
+  induction l₁ generalizing w out with
+  | nil =>
+    rw [List.nil_append, updateLoop_cons] at h
+    simp only [wsEnd] at hw
+    rw [hw, newStyle_noWs] at h
+    simp only [] at h
+    split at h
+    · cases h
+    · rename_i o ho
+      injection h with h
+      exact ⟨[], o, by simpa using h.symm, rfl, updateLoop_length _ _ _ _ _ _ _ ho⟩
+  | cons x rest ih =>
+    rw [List.cons_append, updateLoop_cons] at h
+    split at h
+    · cases h
+    · rename_i st hst
+      split at h
+      · cases h
+      · rename_i o ho
+        injection h with h
+        obtain ⟨o₁, o₂, ho', hl₁, hl₂⟩ := ih _ o ho hw
+        refine ⟨(st, x.2) :: o₁, o₂, ?_, by simp [hl₁], hl₂⟩
+        rw [← h, ho']
+        rfl
+
+/-- **Closed form of `governs`**: on a removed line every section, and on an added line every section that is not part
+of the line's trailing whitespace, is governed by `hunkRule` — in particular an unchanged section of a line with a
+partner by the non-emph style of its side. -/
+theorem governs_section (side : Side) (homolog : Bool) (pre post : List (Bool × Bool)) (s : Bool × Bool)
+    (g : List (String × Bool)) (hg : governs side homolog (pre ++ s :: post) = .ok g)
+    (hbody : side = .minus ∨ ∃ t ∈ s :: post, t.2 = false) :
+    ∃ gpre gpost, g = gpre ++ (hunkRule side homolog s.1, s.2) :: gpost ∧ gpre.length = pre.length ∧
+      gpost.length = post.length := by
+  unfold governs at hg
+  cases hc : callOf side with
+  | none => have := callOf_isSome side; simp [hc] at this
+  | some c =>
+    obtain ⟨hmem, hside⟩ := callOf_mem side c hc
+    obtain ⟨hminus, hplus⟩ := calls_args c hmem
+    have hrev := guard_facts.2.2.2.2.2
+    let f := fun s : Bool × Bool => (annotatedField side s.1, s.2)
+    have hlist : (List.map f (pre ++ s :: post)).reverse = (post.map f).reverse ++ f s :: (pre.map f).reverse := by
+      simp [List.map_append, List.reverse_append]
+    have key : ∀ (ws : Option String) (n : String) (out : List (String × Bool)),
+        updateLine sOps ws (some n) homolog (List.map f (pre ++ s :: post)) = .ok out →
+        stepWs (wsEnd (wsErrInitial ws.isSome) (post.map f).reverse) s.2 = false →
+        ∃ gpre gpost, out = gpre ++ (if homolog && !s.1 then n else annotatedField side s.1, s.2) :: gpost ∧
+          gpre.length = pre.length ∧ gpost.length = post.length := by
+      intro ws n out hout hw
+      unfold updateLine at hout
+      simp only [hrev, if_true, hlist] at hout
+      split at hout
+      · cases hout
+      · rename_i o ho
+        injection hout with hout
+        obtain ⟨o₁, o₂, ho', hl₁, hl₂⟩ := updateLoop_at ws n _ _ _ _ _ o (f s) ho hw
+        refine ⟨o₂.reverse, o₁.reverse, ?_, by simpa using hl₂, by simpa using hl₁⟩
+        rw [← hout, ho']
+        simp only [List.reverse_append, List.reverse_cons, List.append_assoc, List.singleton_append, f,
+          annotatedField_flag, Option.isSome_some, guard_facts.2.1]
+    cases side with
+    | minus =>
+      obtain ⟨h1, h2⟩ := hminus hside
+      simp only [hc, h1, h2] at hg
+      obtain ⟨gpre, gpost, hg', hl⟩ := key none _ g hg (by
+        simp only [Option.isSome_none, guard_facts.2.2.1, wsEnd_false]
+        exact stepWs_false s.2)
+      refine ⟨gpre, gpost, ?_, hl⟩
+      rw [hg']
+      cases s with
+      | mk e b => cases e <;> cases homolog <;> simp [hunkRule, annotatedField]
+    | plus =>
+      obtain ⟨h1, h2⟩ := hplus hside
+      simp only [hc, h1, h2] at hg
+      have hex : ∃ t ∈ s :: post, t.2 = false := by
+        rcases hbody with hb | hb
+        · cases hb
+        · exact hb
+      obtain ⟨gpre, gpost, hg', hl⟩ := key (some "whitespace_error_style") _ g hg (by
+        obtain ⟨t, ht, hb⟩ := hex
+        rcases List.mem_cons.mp ht with ht | ht
+        · subst ht
+          rw [hb]
+          exact stepWs_nonblank _
+        · rw [wsEnd_nonblank _ _ ⟨f t, by simpa using List.mem_map_of_mem (f := f) ht, hb⟩]
+          exact stepWs_false s.2)
+      refine ⟨gpre, gpost, ?_, hl⟩
+      rw [hg']
+      cases s with
+      | mk e b => cases e <;> cases homolog <;> simp [hunkRule, annotatedField]
+
+/-! ### Part 6: `governs` is total; `styleEq` is identity; `annotate`; the flags -/
+
+theorem newStyle_ok (ws : Option String) (n : String) (should mixed w : Bool) (s : String × Bool)
+    (hws : ws.isSome = true ∨ w = false) : ∃ st, newStyle sOps ws (some n) should mixed w s = .ok st := by
+  rcases hws with hws | hw
+  · obtain ⟨x, hx⟩ := Option.isSome_iff_exists.mp hws
+    subst hx
+    unfold newStyle
+    simp only [unwrap]
+    split
+    · exact ⟨_, rfl⟩
+    · split
+      · split <;> exact ⟨_, rfl⟩
+      · exact ⟨_, rfl⟩
+  · subst hw
+    exact ⟨_, newStyle_noWs ws n should mixed s⟩
+
+theorem updateLoop_ok (ws : Option String) (n : String) (should mixed w : Bool) (l : List (String × Bool))
+    (hws : ws.isSome = true ∨ w = false) : ∃ out, updateLoop sOps ws (some n) should mixed w l = .ok out := by
+  induction l generalizing w with
+  | nil => exact ⟨[], rfl⟩
+  | cons s rest ih =>
+    rw [updateLoop_cons]
+    have hws' : ws.isSome = true ∨ stepWs w s.2 = false := by
+      rcases hws with h | h
+      · exact .inl h
+      · subst h; exact .inr (stepWs_false s.2)
+    obtain ⟨st, hst⟩ := newStyle_ok ws n should mixed (stepWs w s.2) s hws'
+    obtain ⟨out, hout⟩ := ih (stepWs w s.2) hws'
+    rw [hst, hout]
+    exact ⟨_, rfl⟩
+
+/-- `governs` always answers: no argument depends on the configured values, and no `unwrap()` of the loop can fail. -/
+theorem governs_ok (side : Side) (homolog : Bool) (secs : List (Bool × Bool)) :
+    ∃ g, governs side homolog secs = .ok g := by
+  unfold governs
+  cases hc : callOf side with
+  | none => have := callOf_isSome side; simp [hc] at this
+  | some c =>
+    obtain ⟨hmem, hside⟩ := callOf_mem side c hc
+    obtain ⟨hminus, hplus⟩ := calls_args c hmem
+    have fin : ∀ (ws : Option String) (n : String) (l : List (String × Bool)),
+        (ws.isSome = true ∨ wsErrInitial ws.isSome = false) → ∃ g, updateLine sOps ws (some n) homolog l = .ok g := by
+      intro ws n l hws
+      unfold updateLine
+      obtain ⟨out, hout⟩ := updateLoop_ok ws n (shouldUpdateNonEmph (some n).isSome homolog) (moreThanOne sOps l)
+        (wsErrInitial ws.isSome) (if sectionsReversed = true then l.reverse else l) hws
+      simp only [hout]
+      exact ⟨_, rfl⟩
+    cases side with
+    | minus =>
+      obtain ⟨h1, h2⟩ := hminus hside
+      simp only [h1, h2]
+      exact fin none _ _ (.inr guard_facts.2.2.1)
+    | plus =>
+      obtain ⟨h1, h2⟩ := hplus hside
+      simp only [h1, h2]
+      exact fin (some _) _ _ (.inl rfl)
+
+/-- The struct as the model sees it, and every field of it compared by `==`. -/
+theorem struct_facts : styleStructFields = knownParts ∧ (∀ p ∈ knownParts, p ∈ styleEqFields) := by decide
+
+/-- **Two styles that `==` calls equal are the same style** (so coalescing equal neighbours, or treating "equal to the
+first style" as "one style", loses nothing). -/
+theorem styleEq_iff (a b : GStyle) : styleEq a b = true ↔ a = b := by
+  constructor
+  · intro h
+    unfold styleEq styleEqOn at h
+    rw [List.all_eq_true] at h
+    have hk := struct_facts.2
+    have h1 := h _ (hk "ansi_term_style" (by decide))
+    have h2 := h _ (hk "is_emph" (by decide))
+    have h3 := h _ (hk "is_omitted" (by decide))
+    have h4 := h _ (hk "is_raw" (by decide))
+    have h5 := h _ (hk "is_syntax_highlighted" (by decide))
+    have h6 := h _ (hk "decoration_style" (by decide))
+    simp [partEq] at h1 h2 h3 h4 h5 h6
+    cases a; cases b
+    simp_all
+  · intro h; subst h; exact styleEq_refl a
+
+/-- What the generated tables say about `edits::annotate` (instantiated with `Style`): every comparison is `==`
+between a `…_op_prev` variable and a parameter; for every value the variable can hold, comparing the two configured
+styles has a definite result: that of comparing the two *names*. -/
+theorem annotate_facts : ∀ c ∈ annotateComparisons, c.2.1 = "==" ∧ (prevValues c.1 ≠ []) ∧
+    ∀ v ∈ prevValues c.1,
+      ((annotationField v).bind fun fv => (annotationField c.2.2).bind fun fr => symCmp (.style fv) (.style fr)) =
+        some (v == c.2.2) := by decide
+
+/-- Where `is_emph` is written (generated inventory, `decide`): every constructor writes `false`; the only assignments
+are those of `parse_styles()`, `true`, on the resolved map, one per flagged key; the flagged `Config` fields are the two
+within-line styles. -/
+theorem isEmph_writes :
+    (∀ w ∈ isEmphWrites, w.2.2.1 = "init" → w.2.2.2 = "false") ∧
+    (∀ w ∈ isEmphWrites, w.2.2.1 = "assign" → w.1 = "src/parse_styles.rs" ∧ w.2.1 = "parse_styles" ∧ w.2.2.2 = "true") ∧
+    (isEmphWrites.filter (·.2.2.1 == "assign")).length = emphFlagSets.length ∧
+    (∀ e ∈ emphFlagSets, e.2 = "resolved") ∧
+    (∀ f ∈ configStyleKey.map (·.1), isEmphField f = (f == "minus_emph_style" || f == "plus_emph_style")) ∧
+    isEmphField "minus_emph_style" = true ∧ isEmphField "plus_emph_style" = true := by decide
+
+/-! ### Part 7: the inventory of tests on configured styles, as reviewed
+
+Every place of src/ where the *value* of a configured style can steer control flow is one of:
+* a comparison of two whole `Style` values (`reviewedComparisonPlaces`): the two `non_emph != emph` guards (modelled:
+  `updateCalls`, always true), `style_sections_contain_more_than_one_style` (modelled: `moreThanOne`), `annotate`
+  (`annotate_facts`), the coalescing of equal neighbours in `superimpose_style_sections` (harmless because `==` is
+  identity: `styleEq_iff`), and `blame_metadata_style` (a style parsed from git's own colours against `Style::default()`,
+  no configured style involved);
+* a read of one part of a configured style (`reviewedPartsRead`), each in the code that writes that option's own element:
+  `is_omitted` / `is_raw` / `decoration_style` of commit / file / hunk-header / grep-header styles decide how (whether) that
+  very header is written; `is_raw` of minus / zero / plus style keeps the raw line of a line of that very kind;
+  `inline_hint_style.ansi_term_style.background` builds the syntect twin of that very style; the seven
+  `is_syntax_highlighted` reads of `should_compute_syntax_highlighting` only decide whether syntect is run for a line
+  (what a section takes from it is gated by the section's own style in `superimpose_style_sections`).
+No part of one option's style decides which style another option's text gets; `is_emph` of a configured style is never
+read (only that of a section's style, in `update_diff_style_sections`: modelled). -/
+
+def reviewedComparisonPlaces : List (String × String) :=
+  [("src/edits.rs", "annotate"),
+   ("src/handlers/blame.rs", "blame_metadata_style"),
+   ("src/paint.rs", "coalesce"),
+   ("src/paint.rs", "paint_minus_and_plus_lines"),
+   ("src/paint.rs", "style_sections_contain_more_than_one_style")]
+
+def reviewedPartsRead : List (String × String) :=
+  [("classic_grep_header_style", "decoration_style"),
+   ("commit_style", "decoration_style"),
+   ("commit_style", "is_omitted"),
+   ("file_style", "decoration_style"),
+   ("file_style", "is_omitted"),
+   ("hunk_header_style", "decoration_style"),
+   ("hunk_header_style", "is_omitted"),
+   ("hunk_header_style", "is_raw"),
+   ("inline_hint_style", "ansi_term_style.background"),
+   ("minus_emph_style", "is_syntax_highlighted"),
+   ("minus_non_emph_style", "is_syntax_highlighted"),
+   ("minus_style", "is_raw"),
+   ("minus_style", "is_syntax_highlighted"),
+   ("plus_emph_style", "is_syntax_highlighted"),
+   ("plus_non_emph_style", "is_syntax_highlighted"),
+   ("plus_style", "is_raw"),
+   ("plus_style", "is_syntax_highlighted"),
+   ("ripgrep_header_style", "decoration_style"),
+   ("zero_style", "is_raw"),
+   ("zero_style", "is_syntax_highlighted")]
+
+/-- The operands of the comparisons in the guards of the two calls. -/
+def guardOperands : Guard → List String
+  | .eq a b | .ne a b => [a, b].map fun | .style f => f | .part f _ => f
+  | .flag f _ => [f]
+  | .lit _ => []
+  | .not g => guardOperands g
+  | .and g h | .or g h => guardOperands g ++ guardOperands h
+
+/-- The guard of an `if g { … } else { … }` argument. -/
+def guardOf : OptStyle → Option Guard
+  | .ite g _ _ => some g
+  | _ => none
+
+def optOperands : OptStyle → List String
+  | .none | .some _ => []
+  | .ite g t e => guardOperands g ++ optOperands t ++ optOperands e
+
+theorem inventory_facts :
+    styleComparisonPlaces = reviewedComparisonPlaces ∧
+    configStylePartsRead = reviewedPartsRead ∧
+    (∀ r ∈ configStyleReads, r.use = "cmp" → r.file = "src/paint.rs" ∧ r.inFn = "paint_minus_and_plus_lines" ∧
+      r.field ∈ updateCalls.flatMap fun c => optOperands c.wsErr ++ optOperands c.nonEmph) ∧
+    (∀ r ∈ configStyleReads, r.use = "part" → r.detail ≠ "is_emph") := by decide +kernel
+
 end StyleGuards
